@@ -494,7 +494,7 @@ func (in *Interp) external(act *activation, b *ssa.BasicBlock, site token.Pos, n
 				return kBig(z)
 			}
 		}
-	case "emulated.Goldilocks.Modulus":
+	case "emulated.Goldilocks.Modulus", "emparams.Goldilocks.Modulus":
 		return &Val{K: goldilocksP, Sym: goldilocksP.ExactString()}
 	}
 	// ---- everything else computes: API arithmetic keeps an expression shape
@@ -593,7 +593,7 @@ func (in *Interp) builtin(act *activation, b *ssa.BasicBlock, instr ssa.CallInst
 		if a.Cell != nil {
 			r.LenOf = sortedUnion(r.LenOf, []string{a.Cell.Tag + a.CSel})
 			if a.Cell.LenVal != nil && len(a.Dir) == 0 && a.CSel == "" {
-				r.Sym = symOf(a.Cell.LenVal)
+				r.Sym = symOrLen(a.Cell.LenVal)
 				if a.Cell.LenVal.K != nil {
 					r.K = a.Cell.LenVal.K
 				}
@@ -619,7 +619,7 @@ func (in *Interp) builtin(act *activation, b *ssa.BasicBlock, instr ssa.CallInst
 		v, _ := instr.(ssa.Value)
 		s, t := args[0], (*Val)(nil)
 		var c *Cell
-		if s != nil && s.Cell != nil && s.CSel == "" {
+		if s != nil && s.Cell != nil && baseSel(s.CSel) == "" {
 			c = s.Cell.find() // weak in-place update: the result may share the first operand's backing array
 		} else {
 			c = in.newCell(act, v, "append", instr.Pos())
@@ -639,7 +639,7 @@ func (in *Interp) builtin(act *activation, b *ssa.BasicBlock, instr ssa.CallInst
 					ec.fpOK = false
 					ec.From = nil
 					// elements that come from a param-rooted slice keep their own paths through r.Dir below
-					if x.Cell != nil && x.Cell.find() == c && x.CSel == "" {
+					if x.Cell != nil && x.Cell.find() == c && baseSel(x.CSel) == "" {
 						// appending to itself: nothing new
 					} else if x.Cell != nil {
 						cc := in.cellRead(x.Cell, x.CSel+"[?]")
